@@ -228,7 +228,10 @@ def eval_cases(workdir, tag, header, case_defs, shard_size=60):
             txt = open(os.path.join(workdir, name + ".out")).read()
         except FileNotFoundError:
             return k, None, "no output file"
-        return k, parse_results(txt), ""
+        got = parse_results(txt)
+        if len(got) != len(sh):
+            return k, None, "parsed %d results for %d cases" % (len(got), len(sh))
+        return k, got, ""
 
     with ThreadPoolExecutor(max_workers=NCPU) as ex:
         for k, res, err in ex.map(do, list(enumerate(shards))):
